@@ -63,6 +63,10 @@ PROPS = {
         "mc": L0_QUICK + L0_THOROUGH,
         "drivers": [drv("modpow", "debug"), drv("modpow", "release", tiers=T)],
     },
+    "C08": {
+        "mc": L0_QUICK + L0_THOROUGH + [mc("mc", "FloatsMC.tla", "FloatsMC.cfg", workers=2)],
+        "drivers": [drv("conv", "debug"), drv("conv", "release", tiers=T)],
+    },
 }
 
 # which properties own the value rule of an operation (a BAD event is a violation only for an owner)
@@ -80,6 +84,7 @@ own("C03", "div rem div_rem checked_div div_floor mod_floor div_mod_floor div_ce
 own("C07", "bitand bitor bitxor not shl shr bit set_bit bits trailing_zeros trailing_ones count_ones")
 own("C05", "modpow modinv")
 own("C06", "to_str_radix fmt to_radix_le to_radix_be parse from_radix_le from_radix_be")
+own("C08", "to_prim to_prim_val to_biguint to_biguint_val to_bigint to_f64 to_f32 from_prim from_float")
 own("C09", "from_bytes_le from_bytes_be new_u32 from_signed_bytes_le from_signed_bytes_be to_bytes_le to_bytes_be to_u32_digits to_u64_digits to_signed_bytes_le to_signed_bytes_be iter_collect iter")
 own("C19", "from_biguint clone")
 own("C04", "clone")
